@@ -5,6 +5,9 @@
 mod common;
 mod iters;
 mod c01;
+mod c02;
+mod c03;
+mod c04;
 
 use common::*;
 
@@ -24,6 +27,9 @@ fn main() {
   let t0 = std::time::Instant::now();
   let rep = match prop {
     "C01" => c01::run(&ctx),
+    "C02" => c02::run(&ctx),
+    "C03" => c03::run(&ctx),
+    "C04" => c04::run(&ctx),
     _ => {
       eprintln!("unknown property {}", prop);
       std::process::exit(2);
